@@ -654,10 +654,13 @@ class Event:
         self.name = name
         self.args = args
         self.kwargs = kwargs
-        self.guards = list(guards)
         self.node = node
         self.recv = recv
         self.full_guards = list(Event.prefix) + list(guards)
+        # the conditions under which the event happens include those of the (inlined) callers' paths: extracting a
+        # helper must not hide the test its call sits under
+        self.local_guards = list(guards)
+        self.guards = list(self.full_guards)
 
     def __repr__(self):
         return "Event(%s, %s, %s)" % (self.name, [show(a) for a in self.args], {k: show(v) for k, v in self.kwargs.items()})
